@@ -406,3 +406,14 @@ def run(ctx):
         ix = index_of(ec)
         ok = any("entries" in derive(ix, a).names for _bi, t in ec.calls() for a in t["args"])
         ctx.ob("QUERIES", "exl-contains", ok, "EXL::contains scans the entries list", ec.file, ec.line, trivial=True)
+        negx = any((s_.get("rv") or {}).get("k") == "un" and s_["rv"].get("op") == "Not" for _b, _s, s_ in ec.stmts())
+        eqx = False
+        for cb_ in [ec] + list(prog.closures_of(ec.name)):
+            for _bi, t in cb_.calls():
+                c = t.get("res") or ""
+                if "PartialEq" in c and c.split("::")[-1] in ("eq", "ne"):
+                    eqx = eqx or c.split("::")[-1] == "eq"
+                    negx = negx or c.split("::")[-1] == "ne"
+            negx = negx or any((s_.get("rv") or {}).get("k") == "un" and s_["rv"].get("op") == "Not" for _b, _s, s_ in cb_.stmts())
+        if eqx or negx:
+            ctx.ob("QUERIES", "exl-contains|true-iff-listed", eqx and not negx, f"EXL::contains answers with an unnegated equality over the entry names: equality {eqx}, negated {negx}", ec.file, ec.line)
